@@ -108,7 +108,7 @@ def extract():
               "RX_BUF_SIZE_PER_VSOCK_DEFAULT", "TX_BUF_SIZE_PER_VSOCK_INITIAL_DEFAULT",
               "TX_BUF_SIZE_PER_VSOCK_MAX_DEFAULT", "ACK_DELAY", "IMMEDIATE_ACK_EVERY_RMSS",
               "SYNACK_RESEND_INTERNAL", "WRAP_TOLERANCE", "DEFAULT_REMOTE_INACTIVITY_TIMEOUT",
-              "DEFAULT_MAX_ACTIVE_STREAMS_PER_SOCKET", "SACK_DUP_THRESH", "SACK_DEPTH"]:
+              "DEFAULT_MAX_ACTIVE_STREAMS_PER_SOCKET", "SACK_DUP_THRESH", "SACK_DEPTH", "MAX_TX_SEGMENTS"]:
         c[n] = const(C, n)
     # calc_pipe_expiry: rtt * NUM / DEN
     src = strip_comments(read(C))
